@@ -50,7 +50,10 @@ def make_recipe(rng, tier):
     kind = ["mean_changes", "weak_changes", "noise", "small_alphabet", "piecewise_const", "spikes",
             "var_changes", "dyadic"][int(rng.integers(8))]
     X, _ = gen_data(rng, n, p, kind, boundary=spec["kw"]["min_segment_length"])
-    return {"det": spec, "X": X, "data_kind": kind}
+    int_dtype = bool(rng.random() < 0.15)
+    if int_dtype:
+        X = np.round(2 * X)
+    return {"det": spec, "X": X, "data_kind": kind, "int_dtype": int_dtype}
 
 
 def fresh_score(spec_cs, X):
@@ -62,11 +65,15 @@ def fresh_score(spec_cs, X):
 
 def exec_case(ctx, r):
     X = np.asarray(r["X"], dtype=float)
+    if r.get("int_dtype"):
+        X = X.astype(np.int64)  # the same numbers passed with an integer dtype
     n, p = X.shape
     spec = r["det"]
     kw = spec["kw"]
     msl, mil = kw["min_segment_length"], kw["max_interval_length"]
     ctx.case()
+    if r.get("int_dtype"):
+        ctx.stat("cases[int64 data]")
     if mil == 2 * msl:
         ctx.stat("cases[max_interval_length==2*msl]")
     if n == 2 * msl:
@@ -106,7 +113,7 @@ def exec_case(ctx, r):
         ctx.violation(sub, "interval-bounds", f"{label}: candidate intervals {bad[:5]} outside [0,{n}] or "
                       f"with length outside [{2 * msl}, {lim}]", r)
         return
-    cs = fresh_score(kw["change_score"], X)
+    cs = fresh_score(kw["change_score"], X.astype(float))
     row_fail = False
     for i in range(len(st)):
         splits = np.arange(st[i] + msl, en[i] - msl + 1)
